@@ -218,11 +218,21 @@ fn header_doors(area: &[u8]) -> Vec<String> {
 }
 
 fn show_opts(o: &TcpOptions) -> String {
+    // every other way of asking the same TcpOptions value for its length / bytes / elements
+    let mut copy = o.clone();
+    let bad = usize::from(o.len_u8()) != o.len()
+        || o.is_empty() != (o.len() == 0)
+        || o.as_slice().len() != o.len()
+        || copy.as_mut_slice() != o.as_slice()
+        || elems_of(o.elements_iter()) != elems_of(TcpOptionsIterator::from_slice(o.as_slice()))
+        || AsRef::<[u8]>::as_ref(o) != o.as_slice()
+        || &o[..] != o.as_slice();
     format!(
-        "ok({},len={},doff={})",
+        "ok({},len={},doff={}){}",
         to_hex(o.as_slice()),
         o.len(),
-        o.data_offset()
+        o.data_offset(),
+        if bad { "!accessor-mismatch" } else { "" }
     )
 }
 
@@ -253,8 +263,13 @@ fn show_header(h: &TcpHeader) -> String {
         ),
         Err(e) => format!("(!err {:?})", e),
     };
+    let bad = usize::from(h.header_len_u16()) != h.header_len()
+        || h.options_len() != h.options.len()
+        || h.options() != h.options.as_slice()
+        || h.header_len() != 20 + h.options_len()
+        || elems_of(h.options.elements_iter()) != elems_of(h.options_iterator());
     format!(
-        "ok(opts={},doff={},hlen={},wire={},it=({}),sl={},ts={})",
+        "ok(opts={},doff={},hlen={},wire={},it=({}),sl={},ts={}){}",
         to_hex(&opts),
         h.data_offset(),
         h.header_len(),
@@ -265,7 +280,8 @@ fn show_header(h: &TcpHeader) -> String {
         },
         it,
         sl,
-        ts
+        ts,
+        if bad { "!accessor-mismatch" } else { "" }
     )
 }
 
